@@ -1,7 +1,7 @@
 --------------------------- MODULE Deploy_proofs ---------------------------
 (* Unbounded safety of the deployment design: for ANY number of slots, claims, notes, tokens and PASERK messages,      *)
 (* Deploy!Spec implies []Authentic - a token accepted under a key that is not the attacker's was sealed by the key's   *)
-(* owner with exactly those claims and that footer note.  Proved with TLAPS (tlapm) from an inductive invariant; TLC   *)
+(* owner with exactly those claims and that footer note for the service that accepted it.  Proved with TLAPS (tlapm) from an inductive invariant; TLC   *)
 (* checks the same invariant (and the others) exhaustively for small constants, and TLC rejects the three weakened     *)
 (* designs, which is why the proof assumes Weaken = "none".                                                            *)
 EXTENDS Deploy, TLAPS, SequenceTheorems
@@ -11,7 +11,7 @@ ASSUME ConstAssump == Evil \in Slots /\ MaxNet \in Nat /\ MaxBlobs \in Nat /\ Ma
 
 ClockTyped == clock \in Nat
 
-TokT == [head : Kinds, bkind : Kinds, key : Slots, claims : ClaimSet, exp : Nat, bkk : Kinds, bks : Slots, bnote : NoteSet,
+TokT == [head : Kinds, bkind : Kinds, key : Slots, claims : ClaimSet, exp : Nat, aud : Auds, bkk : Kinds, bks : Slots, bnote : NoteSet,
          fkk : Kinds, fks : Slots, fnote : NoteSet]
 
 NetTyped == net \in Seq(TokT)
@@ -20,7 +20,7 @@ NetTyped == net \in Seq(TokT)
 NetInv == \A k \in 1..Len(net) : net[k].key # Evil =>
             /\ net[k].bks = net[k].key
             /\ net[k].bkk = net[k].bkind
-            /\ [kind |-> net[k].bkind, key |-> net[k].key, claims |-> net[k].claims, note |-> net[k].bnote] \in issued
+            /\ [kind |-> net[k].bkind, key |-> net[k].key, claims |-> net[k].claims, note |-> net[k].bnote, aud |-> net[k].aud] \in issued
 
 Ind == NetTyped /\ ClockTyped /\ NetInv /\ Authentic
 
@@ -31,7 +31,7 @@ LEMMA EmitKeeps ==
   ASSUME NEW t \in TokT, Ind, Emit(t),
          issued \subseteq issued',
          t.key # Evil => /\ t.bks = t.key /\ t.bkk = t.bkind
-                         /\ [kind |-> t.bkind, key |-> t.key, claims |-> t.claims, note |-> t.bnote] \in issued'
+                         /\ [kind |-> t.bkind, key |-> t.key, claims |-> t.claims, note |-> t.bnote, aud |-> t.aud] \in issued'
   PROVE Ind'
   <1>1. net' = Append(net, t) /\ accepted' = accepted /\ clock' = clock
     BY DEF Emit
@@ -40,7 +40,7 @@ LEMMA EmitKeeps ==
   <1>3. NetInv'
     <2> SUFFICES ASSUME NEW k \in 1..Len(net'), net'[k].key # Evil
                  PROVE /\ net'[k].bks = net'[k].key /\ net'[k].bkk = net'[k].bkind
-                       /\ [kind |-> net'[k].bkind, key |-> net'[k].key, claims |-> net'[k].claims, note |-> net'[k].bnote] \in issued'
+                       /\ [kind |-> net'[k].bkind, key |-> net'[k].key, claims |-> net'[k].claims, note |-> net'[k].bnote, aud |-> net'[k].aud] \in issued'
       BY DEF NetInv
     <2>1. Len(net') = Len(net) + 1 /\ net'[Len(net) + 1] = t /\ \A j \in 1..Len(net) : net'[j] = net[j]
       BY <1>1, AppendProperties DEF Ind, NetTyped
@@ -55,17 +55,17 @@ LEMMA EmitKeeps ==
     BY <1>1 DEF Ind, ClockTyped
   <1> QED BY <1>2, <1>3, <1>4, <1>5 DEF Ind
 
-LEMMA IssueKeeps == ASSUME Ind, NEW s \in Slots, NEW kind, NEW c, NEW n, NEW t \in Slots, NEW ttl \in 0..1, Issue(s, kind, c, n, t, ttl) PROVE Ind'
-  <1> DEFINE tok == Tok(kind, s, c, n, t, clock + ttl)
-  <1>1. kind \in Kinds /\ c \in ClaimSet /\ n \in NoteSet /\ (s # Evil => t = s) /\ Emit(tok)
-        /\ issued' = IF t = s THEN issued \cup {[kind |-> kind, key |-> s, claims |-> c, note |-> n]} ELSE issued
+LEMMA IssueKeeps == ASSUME Ind, NEW s \in Slots, NEW kind, NEW c, NEW n, NEW t \in Slots, NEW ttl \in 0..1, NEW aud, Issue(s, kind, c, n, t, ttl, aud) PROVE Ind'
+  <1> DEFINE tok == Tok(kind, s, c, n, t, clock + ttl, aud)
+  <1>1. kind \in Kinds /\ c \in ClaimSet /\ n \in NoteSet /\ aud \in Auds /\ (s # Evil => t = s) /\ Emit(tok)
+        /\ issued' = IF t = s THEN issued \cup {[kind |-> kind, key |-> s, claims |-> c, note |-> n, aud |-> aud]} ELSE issued
     BY DEF Issue
   <1>2. tok \in TokT
     BY <1>1 DEF Tok, TokT, Ind, ClockTyped
   <1>3. issued \subseteq issued'
     BY <1>1
   <1>4. tok.key # Evil => /\ tok.bks = tok.key /\ tok.bkk = tok.bkind
-                          /\ [kind |-> tok.bkind, key |-> tok.key, claims |-> tok.claims, note |-> tok.bnote] \in issued'
+                          /\ [kind |-> tok.bkind, key |-> tok.key, claims |-> tok.claims, note |-> tok.bnote, aud |-> tok.aud] \in issued'
     BY <1>1 DEF Tok
   <1> QED BY <1>1, <1>2, <1>3, <1>4, EmitKeeps
 
@@ -78,10 +78,10 @@ LEMMA RefootKeeps == ASSUME Ind, NEW i, NEW j, Refoot(i, j) PROVE Ind'
   <1>3. tok \in TokT
     BY <1>2 DEF TokT
   <1>4. tok.key = net[i].key /\ tok.bks = net[i].bks /\ tok.bkk = net[i].bkk /\ tok.bkind = net[i].bkind
-        /\ tok.claims = net[i].claims /\ tok.bnote = net[i].bnote
+        /\ tok.claims = net[i].claims /\ tok.bnote = net[i].bnote /\ tok.aud = net[i].aud
     BY <1>2 DEF TokT
   <1>5. tok.key # Evil => /\ tok.bks = tok.key /\ tok.bkk = tok.bkind
-                          /\ [kind |-> tok.bkind, key |-> tok.key, claims |-> tok.claims, note |-> tok.bnote] \in issued'
+                          /\ [kind |-> tok.bkind, key |-> tok.key, claims |-> tok.claims, note |-> tok.bnote, aud |-> tok.aud] \in issued'
     BY <1>1, <1>4 DEF Ind, NetInv
   <1> QED BY <1>1, <1>3, <1>5, EmitKeeps
 
@@ -94,27 +94,27 @@ LEMMA RelabelKeeps == ASSUME Ind, NEW i, Relabel(i) PROVE Ind'
   <1>3. tok \in TokT
     BY <1>2 DEF TokT, Kinds
   <1>4. tok.key = net[i].key /\ tok.bks = net[i].bks /\ tok.bkk = net[i].bkk /\ tok.bkind = net[i].bkind
-        /\ tok.claims = net[i].claims /\ tok.bnote = net[i].bnote
+        /\ tok.claims = net[i].claims /\ tok.bnote = net[i].bnote /\ tok.aud = net[i].aud
     BY <1>2 DEF TokT
   <1>5. tok.key # Evil => /\ tok.bks = tok.key /\ tok.bkk = tok.bkind
-                          /\ [kind |-> tok.bkind, key |-> tok.key, claims |-> tok.claims, note |-> tok.bnote] \in issued'
+                          /\ [kind |-> tok.bkind, key |-> tok.key, claims |-> tok.claims, note |-> tok.bnote, aud |-> tok.aud] \in issued'
     BY <1>1, <1>4 DEF Ind, NetInv
   <1> QED BY <1>1, <1>3, <1>5, EmitKeeps
 
 \* the step that matters: what Verify releases under an honest key was issued
-LEMMA VerifyKeeps == ASSUME Ind, NEW i, Verify(i) PROVE Ind'
+LEMMA VerifyKeeps == ASSUME Ind, NEW i, NEW who, Verify(i, who) PROVE Ind'
   <1> DEFINE t == net[i]
-             a == [kind |-> t.head, key |-> t.fks, claims |-> t.claims, note |-> t.fnote]
+             a == [kind |-> t.head, key |-> t.fks, claims |-> t.claims, note |-> t.fnote, aud |-> who]
   <1>1. i \in 1..Len(net) /\ net' = net /\ issued' = issued /\ clock' = clock
-        /\ (IF VerifyOk(t) THEN accepted' = accepted \cup {a} ELSE accepted' = accepted)
+        /\ (IF VerifyOk(t, who) THEN accepted' = accepted \cup {a} ELSE accepted' = accepted)
     BY DEF Verify
   <1>2. NetTyped' /\ NetInv' /\ ClockTyped'
     BY <1>1 DEF Ind, NetTyped, NetInv, ClockTyped
   <1>3. Authentic'
-    <2>1. CASE ~VerifyOk(t)
+    <2>1. CASE ~VerifyOk(t, who)
       BY <1>1, <2>1 DEF Ind, Authentic
-    <2>2. CASE VerifyOk(t)
-      <3>1. t.head = t.bkind /\ t.fkk = t.bkk /\ t.fks = t.bks /\ t.fnote = t.bnote /\ t.key = t.fks
+    <2>2. CASE VerifyOk(t, who)
+      <3>1. t.head = t.bkind /\ t.fkk = t.bkk /\ t.fks = t.bks /\ t.fnote = t.bnote /\ t.key = t.fks /\ t.aud = who
         BY <2>2, NotWeakened DEF VerifyOk
       <3>2. a.key # Evil => a \in issued
         <4> SUFFICES ASSUME a.key # Evil PROVE a \in issued
@@ -122,7 +122,7 @@ LEMMA VerifyKeeps == ASSUME Ind, NEW i, Verify(i) PROVE Ind'
         <4>1. t.key # Evil
           BY <3>1
         <4>2. /\ t.bks = t.key /\ t.bkk = t.bkind
-              /\ [kind |-> t.bkind, key |-> t.key, claims |-> t.claims, note |-> t.bnote] \in issued
+              /\ [kind |-> t.bkind, key |-> t.key, claims |-> t.claims, note |-> t.bnote, aud |-> t.aud] \in issued
           BY <1>1, <4>1 DEF Ind, NetInv
         <4> QED BY <3>1, <4>2
       <3> QED BY <1>1, <2>2, <3>2 DEF Ind, Authentic
@@ -155,7 +155,7 @@ LEMMA NextKeeps == ASSUME Ind, [NextD]_vars PROVE Ind'
     BY <1>0, <1>7, FrameKeeps DEF Import
   <1>8. CASE \E k \in Kinds, s \in Slots : Forget(k, s)
     BY <1>0, <1>8, FrameKeeps DEF Forget
-  <1>9. CASE \E s \in Slots, k \in Kinds, c \in ClaimSet, n \in NoteSet, t \in Slots, ttl \in 0..1 : Issue(s, k, c, n, t, ttl)
+  <1>9. CASE \E s \in Slots, k \in Kinds, c \in ClaimSet, n \in NoteSet, t \in Slots, ttl \in 0..1, u \in Auds : Issue(s, k, c, n, t, ttl, u)
     BY <1>9, IssueKeeps
   <1>13. CASE Tick
     BY <1>0, <1>13, FrameKeeps DEF Tick
@@ -163,7 +163,7 @@ LEMMA NextKeeps == ASSUME Ind, [NextD]_vars PROVE Ind'
     BY <1>10, RefootKeeps
   <1>11. CASE \E i \in 1..MaxNet : Relabel(i)
     BY <1>11, RelabelKeeps
-  <1>12. CASE \E i \in 1..MaxNet : Verify(i)
+  <1>12. CASE \E i \in 1..MaxNet, u \in Services : Verify(i, u)
     BY <1>12, VerifyKeeps
   <1> QED BY <1>1, <1>2, <1>3, <1>4, <1>5, <1>6, <1>7, <1>8, <1>9, <1>10, <1>11, <1>12, <1>13 DEF NextD
 
@@ -326,13 +326,13 @@ LEMMA NextKeeps2 == ASSUME Ind2, [NextD]_vars PROVE Ind2'
     BY <1>7, ImportKeeps2
   <1>8. CASE \E k \in Kinds, s \in Slots : Forget(k, s)
     BY <1>8, ForgetKeeps2
-  <1>9. CASE \E s \in Slots, k \in Kinds, c \in ClaimSet, n \in NoteSet, t \in Slots, ttl \in 0..1 : Issue(s, k, c, n, t, ttl)
+  <1>9. CASE \E s \in Slots, k \in Kinds, c \in ClaimSet, n \in NoteSet, t \in Slots, ttl \in 0..1, u \in Auds : Issue(s, k, c, n, t, ttl, u)
     BY <1>9, Frame2 DEF Issue, Emit
   <1>10. CASE \E i \in 1..MaxNet, j \in 1..MaxNet : Refoot(i, j)
     BY <1>10, Frame2 DEF Refoot, Emit
   <1>11. CASE \E i \in 1..MaxNet : Relabel(i)
     BY <1>11, Frame2 DEF Relabel, Emit
-  <1>12. CASE \E i \in 1..MaxNet : Verify(i)
+  <1>12. CASE \E i \in 1..MaxNet, u \in Services : Verify(i, u)
     BY <1>12, Frame2 DEF Verify
   <1>13. CASE Tick
     BY <1>13, Frame2 DEF Tick
